@@ -357,8 +357,8 @@ def _r1_joint_unknown(chk, repo):
     cnd = repo.method(jd, "_condition")[1]
     v, g = cfgv(repo, jd, cnd, 2)
     ex = Expander(v, g)
-    stores = [n for n in g.nodes if n.kind == "stmt" and isinstance(n.ast, ast.Assign) and isinstance(n.ast.targets[0], ast.Subscript)
-              and (path_of(n.ast.targets[0].value) or "").endswith("._densities")]
+    # where the factors are conditioned, however the new list is built: the value returns of the function (all of them lie behind the conditioning)
+    stores = [n for n in g.returns() if n.ast.value is not None]
     rec = len(stores) >= 1
     ok = False
     if rec:
